@@ -71,6 +71,74 @@ NEIGHBORS = {          # the public accessor: works on UNtransformed nodes (tran
 }
 
 
+def ownership_syntactic(E):
+    """Frame / ownership condition of the graph representation, decided on the AST of the real source (the SMT encoding
+    gives neighbour sets value semantics, so aliasing cannot be stated there): every set object that add_neighbors
+    stores in self._neighbors, and everything _transform_nodes returns, is created inside the call -- never the caller's
+    own set, never a set already stored for another node.  Otherwise a later in-place update (`nbs |= ...`) or the caller
+    re-using its set would change edges of other nodes, and sccs() would enumerate a graph that was never built."""
+    import ast
+    SETOPS = (ast.BitAnd, ast.BitOr, ast.Sub, ast.BitXor)
+    FRESH_METHODS = ('copy', 'union', 'intersection', 'difference', 'symmetric_difference')
+
+    def assigned(fdef, name):
+        vals = []
+        for n in ast.walk(fdef):
+            if isinstance(n, ast.Assign) and any(isinstance(t, ast.Name) and t.id == name for t in n.targets):
+                vals.append(n.value)
+            elif isinstance(n, (ast.AugAssign, ast.AnnAssign)) and isinstance(n.target, ast.Name) and n.target.id == name:
+                vals.append(None if isinstance(n, ast.AugAssign) else n.value)     # x |= ...: stays the same object
+        return vals
+
+    def fresh(e, fdef, tr_fresh, depth=0):
+        if e is None or depth > 6:
+            return e is None and depth > 0        # an in-place update of a name keeps it as fresh as it was
+        if isinstance(e, ast.Call):
+            f = e.func
+            if isinstance(f, ast.Name) and f.id in ('set', 'frozenset'):
+                return True
+            if isinstance(f, ast.Attribute) and f.attr in FRESH_METHODS:
+                return True
+            if ast.unparse(f) == 'self._transform_nodes':
+                return tr_fresh
+            return False
+        if isinstance(e, ast.BinOp) and isinstance(e.op, SETOPS):
+            return True
+        if isinstance(e, (ast.SetComp, ast.Set)):
+            return True
+        if isinstance(e, ast.IfExp):
+            return fresh(e.body, fdef, tr_fresh, depth + 1) and fresh(e.orelse, fdef, tr_fresh, depth + 1)
+        if isinstance(e, ast.Name):
+            vals = assigned(fdef, e.id)
+            if e.id in [a.arg for a in fdef.args.args] or not vals:
+                return False                       # a parameter (the caller's object) or an unknown name
+            return all(fresh(v, fdef, tr_fresh, depth + 1) for v in vals)
+        return False
+
+    init, _, _ = E.find_def('digraph.DiGraph.__init__')
+    trs = [n for n in ast.walk(init) if isinstance(n, ast.FunctionDef) and n.name == 'tr_nodes']
+    lam = [n.value for n in ast.walk(init) if isinstance(n, ast.Assign) and isinstance(n.value, ast.Lambda)
+           and any(isinstance(t, ast.Name) and t.id == 'tr_nodes' for t in n.targets)]
+    tr_ok = bool(trs or lam)
+    for d in trs:
+        rets = [r for r in ast.walk(d) if isinstance(r, ast.Return)]
+        tr_ok = tr_ok and bool(rets) and all(r.value is not None and fresh(r.value, d, False) for r in rets)
+    for l in lam:
+        tr_ok = tr_ok and fresh(l.body, init, False)
+    E.syntactic_obligation("DiGraph._transform_nodes returns a set created inside the call (never its argument), in both modes",
+                           tr_ok, props=('C20',))
+    add, _, _ = E.find_def('digraph.DiGraph.add_neighbors')
+    stores = [n for n in ast.walk(add) if isinstance(n, ast.Assign)
+              and any(isinstance(t, ast.Subscript) and ast.unparse(t.value) == 'self._neighbors' for t in n.targets)]
+    st_ok = bool(stores) and all(fresh(n.value, add, tr_ok) for n in stores)
+    E.syntactic_obligation("DiGraph.add_neighbors stores only a set it created itself as a node's neighbour set (no aliasing with "
+                           "the caller's argument or with another node's set)", st_ok, props=('C20',))
+    an, _, _ = E.find_def('digraph.DiGraph.add_nodes')
+    upd = [n for n in ast.walk(an) if isinstance(n, ast.Assign) and any(ast.unparse(t) == 'self._nodes' for t in n.targets)]
+    E.syntactic_obligation("DiGraph.add_nodes updates the graph's own node set in place or with a new set (the node set is never an "
+                           "alias of an argument)", all(fresh(n.value, an, tr_ok) for n in upd), props=('C20',))
+
+
 def register(E):
     trf = z3.Function('transform', usort('Tr'), Out, Node)
     E.callable_sorts['Tr'] = lambda eng, st, f, args: VObj('GNode', trf(f.z, args[0].z))
@@ -86,6 +154,7 @@ def register(E):
         "C20: the component enumeration itself (iterative Tarjan, digraph.py sccs) is NOT proved; it is explored by the "
         "bounded oracle only (exhaustive small graphs + random graphs against a Warshall closure)",
     ]
+    ownership_syntactic(E)
     E.add_contract('digraph.DiGraph.sccs', FILTER)
     register_partition(E)
     E.add_contract('digraph.DiGraph.neighbors', NEIGHBORS)
